@@ -458,7 +458,8 @@ func (m *ServerModel) CompareSnap(s *server.VerifSnap) error {
 	if len(s.Equipment) != len(m.Devices) {
 		return fmt.Errorf("equipment count: real %d model %d (real ids %v)", len(s.Equipment), len(m.Devices), mapKeysU32(s.Equipment))
 	}
-	for id, d := range m.Devices {
+	for _, id := range mapKeysU32(m.Devices) {
+		d := m.Devices[id]
 		ra, ok := s.Equipment[id]
 		if !ok {
 			return fmt.Errorf("device %d authorized in model, missing in server", id)
@@ -484,7 +485,8 @@ func (m *ServerModel) CompareSnap(s *server.VerifSnap) error {
 	if len(s.ReportKeys) != len(m.Devices) || len(s.RateKeys) != len(m.Devices) {
 		return fmt.Errorf("window tables: reports for %v, rates for %v, devices %d", s.ReportKeys, s.RateKeys, len(m.Devices))
 	}
-	for id, d := range m.Devices {
+	for _, id := range mapKeysU32(m.Devices) {
+		d := m.Devices[id]
 		slots, ok := s.Reports[id]
 		if !ok {
 			return fmt.Errorf("device %d has no report window", id)
@@ -576,6 +578,16 @@ func mapKeysU32[V any](m map[uint32]V) []uint32 {
 		ks = append(ks, k)
 	}
 	sort.Slice(ks, func(i, j int) bool { return ks[i] < ks[j] })
+	return ks
+}
+
+// sortedPubKeys returns the keys of a map keyed by public key in byte order.
+func sortedPubKeys[V any](m map[glow.PublicKey]V) []glow.PublicKey {
+	var ks []glow.PublicKey
+	for k := range m {
+		ks = append(ks, k)
+	}
+	sort.Slice(ks, func(i, j int) bool { return bytes.Compare(ks[i][:], ks[j][:]) < 0 })
 	return ks
 }
 
